@@ -55,3 +55,98 @@ Proof.
   assert (Hs : forall j, symex_at sb bi j = symex_at s bi j) by (intros j; unfold symex_at, the_ival; rewrite B2; reflexivity).
   rewrite !Hs. reflexivity.
 Qed.
+
+(* ---- symbolicExpressionSizes (the third offset table, keyed by the interval) through insert_body ---- *)
+Lemma nth_map_combine_seq {A B} (f : nat * A -> B) (l : list A) (d : A) i : forall start,
+  (i < length l)%nat -> nth i (map f (combine (seq start (length l)) l)) (f (start + i, d)%nat) = f ((start + i)%nat, nth i l d).
+Proof.
+  revert i. induction l as [|x l IH]; intros i start Hi; cbn [length] in Hi; [lia|].
+  cbn [length seq combine map]. destruct i as [|i]; cbn [nth]; [rewrite Nat.add_0_r; reflexivity|].
+  replace (start + S i)%nat with (S start + i)%nat by lia. apply IH. lia.
+Qed.
+Lemma tab_get_not_truthy (t : list (nat * dmap Z)) el k : tab_truthy t = false -> tab_get t el k = None.
+Proof.
+  unfold tab_truthy, tab_get. intros H. destruct (aget el t) as [dm|] eqn:E; [|reflexivity].
+  destruct dm as [|e dm]; [reflexivity|]. exfalso.
+  assert (Hin : In (el, e :: dm) t).
+  { clear H. induction t as [|[k' v'] t IH]; cbn [aget] in E; [discriminate|]. destruct (Nat.eqb k' el) eqn:Ek; [apply Nat.eqb_eq in Ek; inversion E; subst; left; reflexivity|right; auto]. }
+  assert (existsb (fun kv : nat * dmap Z => match snd kv with [] => false | _ => true end) t = true) by (apply existsb_exists; eexists; split; [exact Hin|reflexivity]).
+  unfold dmap in *. rewrite H in H0. discriminate.
+Qed.
+Lemma tab_get_aset_same (t : list (nat * dmap Z)) el dm k : tab_get (aset el dm t) el k = dget k dm.
+Proof. unfold tab_get. rewrite BytesProofs.aget_aset_same. reflexivity. Qed.
+
+Definition sizes_tab (s : st) : list (nat * dmap Z) := nth 2 (otabs s) [].
+
+Lemma edit_sizes s i off len content static k :
+  0 <= len ->
+  tab_get (sizes_tab (edit_byte_interval s i off len content static)) i k =
+    if k <? off then tab_get (sizes_tab s) i k
+    else if k <? off + Z.of_nat (length content) then None
+    else tab_get (sizes_tab s) i (k - (Z.of_nat (length content) - len)).
+Proof.
+  intros Hl. unfold sizes_tab, edit_byte_interval. cbn [otabs set_otabs set_ivals set_blocks].
+  set (g := fun t : list (nat * dmap Z) => if tab_truthy t then match aget i t with Some dm => aset i (rekey_keep off len (Z.of_nat (length content) - len) dm) t | None => t end else t).
+  change [] with (g []) at 1. rewrite map_nth. set (t := nth 2 (otabs s) []). unfold g.
+  destruct (tab_truthy t) eqn:Et.
+  - destruct (aget i t) as [dm|] eqn:Ea.
+    + rewrite tab_get_aset_same, rekey_keep_spec by lia. unfold tab_get. rewrite Ea.
+      replace (off + len + (Z.of_nat (length content) - len)) with (off + Z.of_nat (length content)) by lia. reflexivity.
+    + unfold tab_get. rewrite Ea. destruct (k <? off); [reflexivity|]. destruct (k <? _); reflexivity.
+  - rewrite !tab_get_not_truthy by exact Et. destruct (k <? off); [reflexivity|]. destruct (k <? _); reflexivity.
+Qed.
+
+Lemma insert_contents_sizes s b bi base code p pcfg pprox k :
+  (3 <= length (otabs s))%nat -> NoDup (map fst (p_symsizes p)) ->
+  tab_get (sizes_tab (insert_contents s b bi base code p pcfg pprox)) bi k =
+  match dget (k - base) (p_symsizes p) with Some v => Some v | None => tab_get (sizes_tab s) bi k end.
+Proof.
+  intros Hlen Hnd. rewrite insert_contents_stages. unfold sizes_tab.
+  set (sd := ic_d (ic_c (ic_b (ic_a s b bi base p) pcfg) p pprox) b code p).
+  assert (E : otabs sd = otabs s).
+  { unfold sd, ic_d. assert (D : forall x f l, otabs (fold_left (fun s (pb : nat * bkind * Z * Z) => let '(id, k, _, _) := pb in if bkind_eqb k KCode then add_function_block_aux s id f else s) l x) = otabs x).
+    { intros x f l. revert x. induction l as [|[[[id k0] o] sz] l IH]; intros x; cbn [fold_left]; [reflexivity|]. destruct (bkind_eqb k0 KCode); rewrite IH; reflexivity. }
+    assert (C : otabs (ic_c (ic_b (ic_a s b bi base p) pcfg) p pprox) = otabs s).
+    { unfold ic_c, ic_b, ic_a. cbv zeta. cbn [otabs set_cfi set_misc set_align set_proxies set_rcache set_cfg]. unfold order_insert_after.
+      destruct (block_section _ b); cbn [otabs set_order set_ivals]; unfold place_blocks;
+        (assert (P : forall l x, otabs (fold_left (fun s pb => let '(id, k, o, sz) := pb in set_blk s id (mk_blk k (Some bi) (base + o) sz)) l x) = otabs x)
+           by (induction l as [|[[[id k0] o] sz] l IH]; intros x; cbn [fold_left]; [reflexivity|rewrite IH; reflexivity])); rewrite P; reflexivity. }
+    destruct code; [destruct (aget b (fbb _)); [rewrite D|]|]; exact C. }
+  unfold ic_e. cbn [otabs set_otabs]. rewrite E.
+  set (f := fun it : nat * list (nat * dmap Z) => let '(i, t) := it in
+              if Nat.eqb i 2 then match p_symsizes p with [] => t | _ => aset bi (dupdate (match aget bi t with Some d => d | None => [] end) (drekey (fun k => base + k) (p_symsizes p))) t end else t).
+  assert (Hn : nth 2 (map f (combine (seq 0 (length (otabs s))) (otabs s))) [] = f (2%nat, nth 2 (otabs s) [])).
+  { rewrite (nth_indep _ [] (f (0 + 2, [])%nat)) by (rewrite map_length, combine_length, seq_length; lia).
+    apply (nth_map_combine_seq f (otabs s) [] 2 0). lia. }
+  rewrite Hn. unfold f. cbn [Nat.eqb]. set (t := nth 2 (otabs s) []).
+  destruct (p_symsizes p) as [|e0 l0] eqn:Ep; [cbn [dget]; reflexivity|]. rewrite <- Ep in *.
+  rewrite tab_get_aset_same, dget_dupdate by (apply drekey_keys_nodup; [intros x y H; lia|exact Hnd]).
+  rewrite dget_plus. destruct (dget (k - base) (p_symsizes p)); [reflexivity|]. unfold tab_get. destruct (aget bi t); reflexivity.
+Qed.
+
+Theorem insert_body_sizes s b first last lastk end_block added_ft bi offset repl code p pcfg pprox k :
+  (3 <= length (otabs s))%nat -> 0 <= repl -> NoDup (map fst (p_symsizes p)) ->
+  let x := the_blk s b in
+  let base := boff x + offset in
+  let E := boff x + bsize x in
+  let L := Z.of_nat (length (p_data p)) in
+  tab_get (sizes_tab (insert_body s b first last lastk end_block added_ft bi offset repl code p pcfg pprox)) bi k =
+  match dget (k - base) (p_symsizes p) with
+  | Some v => Some v
+  | None => if k <? E then tab_get (sizes_tab s) bi k else if k <? E + L then None else tab_get (sizes_tab s) bi (k - (L - repl))
+  end.
+Proof.
+  intros Hlen Hr Hnd. cbv zeta. unfold insert_body.
+  set (m_bo := fun f => match f with FBlocks | FOtabs => true | _ => false end).
+  assert (Ga : agree m_bo s (fst (add_return_edges_for_patch_calls s pcfg))) by (apply agree_add_return_edges_for_patch_calls; [reflexivity|apply agree_refl]).
+  destruct (add_return_edges_for_patch_calls s pcfg) as [sa pca]. cbn [fst] in Ga.
+  assert (Gb : agree m_bo s (insert_stitch sa b first last lastk end_block added_ft)) by (apply agree_insert_stitch; [reflexivity|exact Ga]).
+  destruct Gb as [Gb _]. pose proof (Gb FBlocks eq_refl) as B1. pose proof (Gb FOtabs eq_refl) as B2. cbn [proj_eq] in B1, B2.
+  set (sb := insert_stitch sa b first last lastk end_block added_ft) in *.
+  assert (Hx : the_blk sb b = the_blk s b) by (unfold the_blk; rewrite B1; reflexivity).
+  rewrite Hx.
+  rewrite insert_contents_sizes; [| |exact Hnd].
+  - destruct (dget (k - (boff (the_blk s b) + offset)) (p_symsizes p)); [reflexivity|].
+    rewrite edit_sizes by exact Hr. unfold sizes_tab. rewrite B2. reflexivity.
+  - unfold edit_byte_interval. cbn [otabs set_otabs set_ivals set_blocks]. rewrite map_length, B2. exact Hlen.
+Qed.
